@@ -2,6 +2,7 @@ package e2
 
 import (
 	"fmt"
+	"github.com/aukilabs/hagall-common/messages/dagazpb"
 	"sort"
 	"strings"
 	"time"
@@ -92,6 +93,7 @@ type stepEnv struct {
 	t, t2        uint32
 	t3           uint32 // a type nobody is subscribed to (sub-vs-sub)
 	vLog0        int    // length of the victim's log when its request was sent
+	vReq         uint32 // generic victims: the id of the victim's request
 	vE           uint32 // generic victims: an entity of the victim carrying a component of type t
 	t4, t5       uint32 // types whose only subscriber is the victim (t4) / the scripted leaver (t5)
 	subV, subL   bool   // those subscriptions were made
@@ -254,6 +256,7 @@ func stepSetup(p *sut.Proc, victim string) *stepEnv {
 		must(err)
 		_, err = o.AddEntity(false, 12)
 		must(err)
+		en.planes(o)
 	case "create":
 	case "lastleave":
 		_, _, err = v.Join("")
@@ -263,6 +266,7 @@ func stepSetup(p *sut.Proc, victim string) *stepEnv {
 		must(err)
 		en.vNP, err = v.AddEntity(false, 4)
 		must(err)
+		en.planes(v)
 	case "leave", "delete":
 		_, _, err = v.Join(en.sid)
 		must(err)
@@ -284,6 +288,7 @@ func stepSetup(p *sut.Proc, victim string) *stepEnv {
 		en.oldSID, en.oldUUID = v.SID, v.UUID
 		_, err = v.AddEntity(false, 3)
 		must(err)
+		en.planes(v)
 	}
 	// subscriptions that must end with their only holder: the victim's (it may
 	// leave or be aborted) and the scripted leaver's
@@ -345,6 +350,27 @@ func (en *stepEnv) fire2(victim2 string) {
 	}
 }
 
+// planes: three ground-plane samples in the session of c (kept for as long
+// as the session lives).
+func (en *stepEnv) planes(c *scen.C) {
+	for k := 0; k < 3; k++ {
+		must(c.Send(&dagazpb.DagazQuadSample{Type: d.TQuadSample, Timestamp: d.NewTag(), Samples: []*dagazpb.Quad{{Center: &dagazpb.Point{X: float32(10 * k), Z: 5}, Extents: &dagazpb.Point{X: 1, Z: 1}}}}))
+	}
+	_, err := c.Barrier()
+	must(err)
+}
+
+// planesKept: a member of a session that lived on still finds its three planes.
+func (en *stepEnv) planesKept(c StepCase, res *StepResult, member *scen.C, how string) {
+	a, _, err := member.Do(&dagazpb.DagazGetDebugInfoRequest{Type: d.TDebugInfoReq, Timestamp: d.NewTag(), RequestId: member.NextReqID()})
+	must(err)
+	if info, ok := a.M.(*dagazpb.DagazGetDebugInfoResponse); !ok {
+		res.Findings = append(res.Findings, sf([]string{"C20", "C04"}, "dagaz/debug-info-unanswered", c, "a debug-info request in the session that lived on was answered with %v", a))
+	} else if info.GridPlaneCount != 3 {
+		res.Findings = append(res.Findings, sf([]string{"C20", "C07"}, "dagaz/planes-lost-while-session-lives", c, "the session %s held 3 ground planes; %s, the session lived on (same uuid), and now reports %d planes", member.SID, how, info.GridPlaneCount))
+	}
+}
+
 func (en *stepEnv) fire(victim string) {
 	v := en.v
 	switch victim {
@@ -378,11 +404,14 @@ func (en *stepEnv) fire(victim string) {
 	case "delete":
 		must(v.Send(&hagallpb.EntityDeleteRequest{Type: d.TEntityDelReq, Timestamp: d.NewTag(), RequestId: v.NextReqID(), EntityId: en.vNP}))
 	case "entityadd":
-		must(v.Send(&hagallpb.EntityAddRequest{Type: d.TEntityAddReq, Timestamp: d.NewTag(), RequestId: v.NextReqID(), Persist: true, Pose: &hagallpb.Pose{Px: 33, Rw: 1}}))
+		en.vReq = v.NextReqID()
+		must(v.Send(&hagallpb.EntityAddRequest{Type: d.TEntityAddReq, Timestamp: d.NewTag(), RequestId: en.vReq, Persist: true, Pose: &hagallpb.Pose{Px: 33, Rw: 1}}))
 	case "compdel":
-		must(v.Send(&hagallpb.EntityComponentDeleteRequest{Type: d.TCompDelReq, Timestamp: d.NewTag(), RequestId: v.NextReqID(), EntityComponentTypeId: en.t, EntityId: en.vE}))
+		en.vReq = v.NextReqID()
+		must(v.Send(&hagallpb.EntityComponentDeleteRequest{Type: d.TCompDelReq, Timestamp: d.NewTag(), RequestId: en.vReq, EntityComponentTypeId: en.t, EntityId: en.vE}))
 	case "assetadd":
-		must(v.Send(&odalpb.AssetInstanceAddRequest{Type: d.TAssetAddReq, Timestamp: d.NewTag(), RequestId: v.NextReqID(), EntityId: en.vE, AssetId: "victim-asset"}))
+		en.vReq = v.NextReqID()
+		must(v.Send(&odalpb.AssetInstanceAddRequest{Type: d.TAssetAddReq, Timestamp: d.NewTag(), RequestId: en.vReq, EntityId: en.vE, AssetId: "victim-asset"}))
 	case "custom":
 		must(v.Send(&hagallpb.CustomMessage{Type: d.TCustom, Timestamp: d.NewTag(), Body: []byte("victim-broadcast")}))
 	}
@@ -474,6 +503,11 @@ func (en *stepEnv) interfere(victim string) (err error) {
 		return
 	}
 	if err = m.UpdateComp(en.t, en.e0, "c1"); err != nil {
+		return
+	}
+	// the owner moves the entity every snapshot contains (executed at the next
+	// frame: a writer of the entity arrives while the victim may be reading it)
+	if _, err = m.Pose(en.e0, 77); err != nil {
 		return
 	}
 	if _, err = m.Action(en.e0, "a0", 1_700_000_100, "y"); err != nil {
@@ -997,6 +1031,12 @@ func StepRun(p *sut.Proc, c StepCase) (res *StepResult) {
 			return
 		}
 	}
+	if (c.Victim == "switch" || c.Victim == "lastleave") && en.n2ok && !gone[en.n2] && en.n2.UUID == en.oldUUID {
+		en.planesKept(c, res, en.n2, "a connection joined it by id while its only member was leaving")
+		if len(res.Findings) > 0 {
+			return
+		}
+	}
 	if (c.Victim == "switch" || c.Victim == "lastleave") && en.n2ok && !gone[en.n2] {
 		// the connection that joined the victim's old session while the victim was
 		// leaving it: what it was handed plus what it was relayed is what a probe is handed
@@ -1254,13 +1294,11 @@ func (en *stepEnv) judgeSession(c StepCase, res *StepResult, snap *scen.Snapshot
 		// newcomer (which joined while it was in progress), never to the victim
 		answers := 0
 		for _, e := range v.LogCopy()[en.vLog0:] {
-			switch x := e.M.(type) {
-			case *hagallpb.EntityAddResponse, *hagallpb.EntityComponentDeleteResponse, *odalpb.AssetInstanceAddResponse:
+			if e.M == nil || e.Type == d.TPingResp {
+				continue
+			}
+			if f := e.M.ProtoReflect().Descriptor().Fields().ByName("request_id"); f != nil && en.vReq != 0 && uint32(e.M.ProtoReflect().Get(f).Uint()) == en.vReq {
 				answers++
-			case *hagallpb.ErrorResponse:
-				if x.RequestId != 0 {
-					answers++
-				}
 			}
 		}
 		want := 1
@@ -1393,7 +1431,7 @@ func wedgeOrInconclusive(p *sut.Proc, c StepCase, what string) *check.Finding {
 	time.Sleep(500 * time.Millisecond)
 	d2, _ := p.Goroutines()
 	if stuck := stuckIn(d1, d2); len(stuck) > 0 {
-		return sf([]string{"C09", "C08", "C06"}, "liveness/wedged", c, "%s; goroutines parked in relay code across two dumps: %v", what, stuck)
+		return sf([]string{"C09", "C08", "C06", "C04"}, "liveness/wedged", c, "%s; goroutines parked in relay code across two dumps: %v", what, stuck)
 	}
 	return &check.Finding{Clause: "inconclusive", Trigger: "step-through/" + c.Victim, Detail: what + " (no goroutine parked in relay code: not decided)"}
 }
@@ -1469,6 +1507,11 @@ func (en *stepEnv) judgeJoinVsLastLeave(c StepCase, res *StepResult, gone map[*s
 	}
 	if diff := foldLog(v).Diff(stateFromProbe(snap), "vod"); len(diff) > 0 {
 		res.Findings = append(res.Findings, sf([]string{"C06", "C01"}, "view/diverged-after-step", c, "the view of the victim, which joined a session while its only member left, differs from the state handed to a probe: %s\n   its stream: %v", strings.Join(diff, "; "), v.LogCopy()))
+		return
+	}
+	// the session lived on: so did its ground planes
+	en.planesKept(c, res, v, "the victim joined it while its only other member left")
+	if len(res.Findings) > 0 {
 		return
 	}
 	// the session is live: a newcomer is relayed the victim's pose updates
